@@ -333,10 +333,12 @@ func (i *instance) HAProxyUpdate(timer *utils.Timer) error {
 		timer.Tick("shuffle_endpoints")
 	}
 	i.config.Backends().FillSourceIPs()
-	if !updated || updater.cmdCnt > 0 {
+	if !updated || updater.cmdCnt > 0 || i.config.Backends().Changed() {
 		// only need to rewrite config files if:
 		//   - !updated           - there are changes that cannot be dynamically applied
 		//   - updater.cmdCnt > 0 - there are changes that was dynamically applied
+		//   - Backends().Changed() - backends were removed (or changed in a way that
+		//                            doesn't need a reload), their files should follow
 		err := i.writeConfig()
 		timer.Tick("write_config")
 		if err != nil {
